@@ -4,7 +4,10 @@
 // were given the pool.  The sequential `pipeline` enumerator covers the alphabet; this harness covers the
 // interleavings: fulfilment racing with the attachment of every link, the unwrapping of an inner future
 // that completes before / while / after the step that returned it, and a step finishing on a worker
-// while the next one is being attached.
+// while the next one is being attached.  Every step functor carries a tracked capture (ids 900+i): it
+// must be alive whenever the library calls the functor and destroyed exactly once on every path and in
+// every interleaving (called, skipped, dropped with the handle), and under mc-hb its destruction must be
+// ordered after the call that read it.
 #include "common.hpp"
 
 #include <yaclib/async/contract.hpp>
@@ -152,8 +155,9 @@ auto Norm(H&& h) {
 
 template <typename H>
 auto Apply(World& w, H&& h, char kind, int i) {
-  auto value_cb = [&w, i](T&& v) {
+  auto value_cb = [&w, i, g = T{900 + i}](T&& v) {
     Enter(w, i);
+    VX_EXPECT(g.Get() == 900 + i, "functor-intact", "capture of step %d reads %d", i, g.Raw());
     T out{v.Get() * 10 + i + 1};
     w.finished[i].Set(1);
     return out;
@@ -166,23 +170,26 @@ auto Apply(World& w, H&& h, char kind, int i) {
     case 'Q':
       return Norm(std::move(h).Then(*w.tp, value_cb));
     case 'R':
-      return Norm(std::move(h).ThenInline([&w, i](R&& r) {
+      return Norm(std::move(h).ThenInline([&w, i, g = T{900 + i}](R&& r) {
         Enter(w, i);
+        VX_EXPECT(g.Get() == 900 + i, "functor-intact", "capture of step %d reads %d", i, g.Raw());
         (void)r;
         w.finished[i].Set(1);
         return T{50 + i};
       }));
     case 'A':
     case 'a':
-      return Norm(std::move(h).ThenInline([&w, i](R&& r) {
+      return Norm(std::move(h).ThenInline([&w, i, g = T{900 + i}](R&& r) {
         Enter(w, i);
+        VX_EXPECT(g.Get() == 900 + i, "functor-intact", "capture of step %d reads %d", i, g.Raw());
         (void)r;
         w.finished[i].Set(1);
         return std::move(w.inner[i]);
       }));
     default:
-      return Norm(std::move(h).ThenInline([&w, i](T&& v) -> T {
+      return Norm(std::move(h).ThenInline([&w, i, g = T{900 + i}](T&& v) -> T {
         Enter(w, i);
+        VX_EXPECT(g.Get() == 900 + i, "functor-intact", "capture of step %d reads %d", i, g.Raw());
         (void)v;
         w.finished[i].Set(1);
         throw Boom{i};
